@@ -46,7 +46,7 @@ from vf.mon import audit as auditmod
 
 ID = "C29"
 LEVEL = "exploration"
-RULE = ("case = (temp, clean, filed, extensioned) x op script (7 scripts of reopen/reuse/clear/close) x name (plain, nested a/b, "
+RULE = ("case = (temp, clean, filed, extensioned) x op script (13 scripts: reopen/reuse/clear/close, and reopen flipping temp or changing headDirPath with/without clear) x name (plain, nested a/b, "
         "dotted a.b, ./x, x/../y, '../'*k+e for k=1..5; each with and without an extension) x base ('', plain, nested, dotted, ./b, "
         "b/../c, '../'*k for k=1..5) x prior state at the path (none / left by a directory Filer / left by a file Filer) x head "
         "(usable / blocked so the alt head is used). quick: the full product flags x names x bases (script, prior, head drawn from the "
@@ -67,11 +67,13 @@ NSHARDS = {"quick": 16, "thorough": 16}
 TIMEOUT_S = {"quick": 300, "thorough": 1800}
 REQUIRE = {"windows_judged": 5000, "audit_events_judged": 10000, "snapshot_diff_entries_judged": 5000,
            "clear_closes_judged": 1000, "cases_opened": 1200, "cases_temp": 500, "cases_alt_head_used": 50,
-           "sentinel_checks": 20000, "cases_name_stays_inside_head": 1000}
+           "sentinel_checks": 20000, "cases_name_stays_inside_head": 1000, "neighbours_planted": 1500,
+           "flip_reopens_judged": 300, "flip_to_temp_clear_of_persistent_file_path_with_neighbour": 40,
+           "head_change_reopens_judged": 100}
 EXHAUSTIVE = {"quick": "flags(16) x names(20) x bases(11) = 3520 configurations (op script, prior state, head mode seeded) "
-                       "+ flags(16) x op scripts(7) x 6 name/base pairs = 672",
-              "thorough": "flags(16) x op scripts(7) x names(20) x bases(11) = 24640 configurations, the non-temp half with 2 of the 6 "
-                          "(prior, head mode) combinations each (rotating with the seed): 36960 cases"}
+                       "+ flags(16) x op scripts(13) x 6 name/base pairs = 1248",
+              "thorough": "flags(16) x op scripts(13) x names(20) x bases(11) = 45760 configurations, the non-temp half with 2 of the 6 "
+                          "(prior, head mode) combinations each (rotating with the seed): 68640 cases"}
 
 DEPTH = 12
 # tmpfs when there is one: rmdir/fsync on the disk-backed /tmp of this machine cost 5 ms each
@@ -89,19 +91,28 @@ SCRIPTS = {
     "close-reopen-clear": [["close", {}], ["reopen", {}], ["close", {"clear": True}]],
     "lazy-clear": [["lazy"], ["reopen", {}], ["close", {"clear": True}]],     # constructed with reopen=False
     "keep": [["close", {}]],
+    # flag flips on reopen ("flip" = the opposite of the Filer's current temp; "head2" = a second head directory in the box)
+    "flip-temp-clear": [["reopen", {"temp": "flip", "clear": True}], ["close", {"clear": True}]],
+    "flip-temp-keep": [["reopen", {"temp": "flip"}], ["close", {"clear": True}]],
+    "flip-temp-reuse-clear": [["reopen", {"temp": "flip", "reuse": True, "clear": True}], ["close", {"clear": True}]],
+    "flip-there-and-back": [["reopen", {"temp": "flip", "clear": True}], ["reopen", {"temp": "flip", "clear": True}],
+                            ["close", {"clear": True}]],
+    "head2-clear": [["reopen", {"headDirPath": "head2", "clear": True}], ["close", {"clear": True}]],
+    "head2-keep-then-flip": [["reopen", {"headDirPath": "head2"}], ["reopen", {"temp": "flip", "clear": True}],
+                             ["close", {"clear": True}]],
 }
 PRIORS = ["none", "dir", "file"]
 HEADS = ["ok", "blocked"]
 
 
 # six representative (name, base) pairs that get every op script in the quick tier
-QUICK_PAIRS = [("x", ""), ("a/b", "p/q"), ("x/../y.dat", "./b"), ("../e", "bs"), ("../../e", ".."), ("../../../e.dat", "../..")]
+QUICK_PAIRS = [("x", ""), ("a/b", "p/q"), ("x/../y.dat", "./b"), ("../e", "bs"), ("a.b", "b/../c"), ("../../e", "..")]
 
 
 def cases(tier, seed, shard, nshards):
     """quick:    flags x names x bases, op script / prior / head mode drawn from the seed   (3520 configurations)
-                 + flags x op scripts x QUICK_PAIRS, prior / head mode drawn from the seed    (672)
-       thorough: flags x op scripts x names x bases (24640 configurations); when not temp each with two of the six
+                 + flags x op scripts x QUICK_PAIRS, prior / head mode drawn from the seed    (1248)
+       thorough: flags x op scripts x names x bases (45760 configurations); when not temp each with two of the six
                  (prior, head mode) combinations, rotating with the configuration index and the seed so that seeds 0..2
                  cover all six (temp ignores HeadDirPath and always starts from a fresh directory)"""
     flags = list(itertools.product([False, True], repeat=4))
@@ -170,12 +181,13 @@ class Box:
         self.okhead = os.path.join(deep, "head")
         self.blockedhead = os.path.join(blocker, "head")
         self.head = self.okhead if head_mode == "ok" else self.blockedhead
-        for d in (self.okhead, self.alt, self.tmp, self.sib, os.path.join(self.sib, "sub")):
+        self.head2 = os.path.join(deep, "head2")
+        for d in (self.okhead, self.alt, self.tmp, self.sib, os.path.join(self.sib, "sub"), self.head2):
             os.mkdir(d)
         for p in ("alt/alt-sentinel.txt", "tmp/tmp-sentinel.txt", "sib/s1.txt", "sib/sub/s2.txt"):
             self._sentinel(os.path.join(deep, p))
         # sentinels inside the heads but outside any Filer path of this workload
-        for h, tail in ((self.okhead, "hio"), (self.alt, ".hio")):
+        for h, tail in ((self.okhead, "hio"), (self.alt, ".hio"), (self.head2, "hio")):
             for rel in ("keep.txt", f"{tail}/keep_other/keep.txt", f"{tail}/clean/keep_other/keep.txt"):
                 p = os.path.join(h, rel)
                 os.makedirs(os.path.dirname(p), exist_ok=True)
@@ -230,11 +242,19 @@ class Judge:
         self.removed_any = False
         self.alt_used = False
         self.last = None            # snapshot after the previous window, valid while the harness itself wrote nothing
+        self.tb = self.ta = bool(case["temp"])   # the Filer's temp flag before / after the call being judged (reopen may flip it)
+        self.extra_heads = []       # a head directory passed to reopen(headDirPath=...)
+        self.neighbours = set()     # files planted next to the Filer's path: entries of the same directory that are not its own
 
     def heads(self):
-        if self.case["temp"]:
-            return list(self.tempdirs)
-        return [self.box.head, self.box.alt]
+        """the Filer's own head directories for the window being judged: its temp directories while it is (or becomes)
+        temp, the persistent heads while it is (or becomes) persistent - a flipping reopen clears in one and creates in the other"""
+        hs = []
+        if self.tb or self.ta:
+            hs += self.tempdirs
+        if not (self.tb and self.ta):
+            hs += [self.box.head, self.box.alt] + self.extra_heads
+        return hs
 
     def where(self, path):
         """'in' | 'is' | 'out' w.r.t. the Filer's own head directory"""
@@ -257,7 +277,7 @@ class Judge:
         if w == "is":
             # creating the head (or the temp dir) itself is how a head comes to exist; removing the Filer's own
             # temp directory is cleanup.  Removing or chmod-ing a persistent head itself is not "inside".
-            if what == "created" or self.case["temp"]:
+            if what == "created" or path in self.tempdirs:
                 return
             ctx.count(f"escapes:{what}-head-itself:{phase}:{self.nameclass}")
             ctx.violation(self.key(f"{what}-head-directory-itself:{phase}"), Lazy(lambda: (
@@ -291,6 +311,7 @@ class Judge:
         ctx.count("snapshots_taken", 1 if self.last is None else 0)
         own_path = filer.path if filer is not None else None
         own_temp = list(self.tempdirs)
+        self.tb = self.ta = bool(filer.temp) if filer is not None else bool(self.case["temp"])
         outcome = None
         with AUDIT.window(guard_root=box.root) as log:
             try:
@@ -307,6 +328,8 @@ class Judge:
         after = auditmod.snapshot(box.root)
         ctx.count("snapshots_taken")
         self.last = after
+        if filer is not None:
+            self.ta = bool(filer.temp)
         if log.errors:
             raise RuntimeError(f"audit hook decode errors: {log.errors[:3]}")
         ctx.count("windows_judged")
@@ -319,11 +342,11 @@ class Judge:
         for verb, path, event, detail in log.events:
             if event == "tempfile.mkdtemp":
                 ctx.count("mkdtemp_seen")
-                if os.path.dirname(path) == box.tmp and self.case["temp"]:
+                if os.path.dirname(path) == box.tmp and (self.tb or self.ta):
                     self.tempdirs.append(path)
                 else:
                     ctx.violation(f"temp-dir-not-under-temp-head:{phase}",
-                                  f"mkdtemp made {self.short(path)}; TempHeadDir is {self.short(box.tmp)}, temp={self.case['temp']}")
+                                  f"mkdtemp made {self.short(path)}; TempHeadDir is {self.short(box.tmp)}, temp before/after={self.tb}/{self.ta}")
         # O1 on attempts
         for verb, path, event, detail in log.events:
             ctx.count("audit_events_judged")
@@ -357,7 +380,11 @@ class Judge:
         # O2: a clearing close removes nothing outside its own path (temp: its own temp directory)
         if clearing:
             ctx.count("clear_closes_judged")
-            own = own_temp if self.case["temp"] else ([own_path] if own_path else [])
+            # the path being cleared was made under the regime the Filer had BEFORE the call
+            own = own_temp if self.tb else ([own_path] if own_path else [])
+            lost = [n for n in self.neighbours if n in removed]
+            if lost:
+                ctx.count("neighbours_removed_by_clearing_window:" + ("temp" if self.tb else "persistent"))
             rem = [(p, "snapshot diff") for p in removed] + \
                   [(p, f"audit {e}") for v, p, e, _ in log.events if v in ("remove", "remove-tree")]
             for p, source in rem:
@@ -365,7 +392,8 @@ class Judge:
                     ctx.count(f"escapes:clear-removed-outside-own-path:{phase}:{self.nameclass}")
                     ctx.violation(self.key(f"clear-removed-outside-own-path:{phase}"),
                                   f"{source}: {self.short(p)} removed by a clearing {phase}; own path {self.short(str(own_path))} "
-                                  f"(flags={self.flags()} name={self.case['name']!r} base={self.case['base']!r})")
+                                  f"(flags={self.flags()} name={self.case['name']!r} base={self.case['base']!r} "
+                                  f"script={self.case['script']} temp before/after={self.tb}/{self.ta})")
                     break
         elif removed:
             inside = [p for p in removed if p in box.sentinel_set]
@@ -385,7 +413,7 @@ def setup(ctx):
 def static_safe(case, box):
     """refuse to run a case whose lexical target could leave the disposable tree (cannot happen with DEPTH=12)"""
     name = case["name"] + ".text"
-    for root in (box.head, box.alt, os.path.join(box.tmp, "hio_XXXXXXXX_test")):
+    for root in (box.head, box.alt, box.head2, os.path.join(box.tmp, "hio_XXXXXXXX_test")):
         for tail in ("hio", "hio/clean", ".hio", ".hio/clean"):
             p = os.path.normpath(os.path.join(root, tail, case["base"], name))
             top = os.path.dirname(os.path.dirname(os.path.dirname(p)))
@@ -508,7 +536,27 @@ def _run(case, ctx, box, first):
             judge.last = None
         if filer.file and not filer.file.closed:
             filer.file.write("data\n")
+        # a neighbour: another entry of the directory that holds the Filer's path (another Filer with the same base ...)
+        if filer.opened and filer.path and nameclass == "name-inside-head" and os.path.isdir(os.path.dirname(filer.path)):
+            nb = os.path.join(os.path.dirname(filer.path), "vf-neighbour.txt")
+            if not os.path.lexists(nb) and nb != filer.path:
+                with open(nb, "w") as f:
+                    f.write("not yours")
+                judge.neighbours.add(nb)
+                judge.last = None
+                ctx.count("neighbours_planted")
         kwargs = dict(op[1])
+        if kwargs.get("temp") == "flip":
+            kwargs["temp"] = not filer.temp
+            ctx.count("flip_reopens_judged")
+            ctx.count("flip_reopens:" + ("to-temp" if kwargs["temp"] else "to-persistent") + (":clear" if kwargs.get("clear") else ""))
+            if kwargs["temp"] and kwargs.get("clear") and filer.path and os.path.isfile(filer.path) and \
+                    any(os.path.dirname(n) == os.path.dirname(filer.path) and os.path.lexists(n) for n in judge.neighbours):
+                ctx.count("flip_to_temp_clear_of_persistent_file_path_with_neighbour")
+        if kwargs.get("headDirPath") == "head2":
+            kwargs["headDirPath"] = box.head2
+            judge.extra_heads = [box.head2]
+            ctx.count("head_change_reopens_judged")
         if op[0] == "reopen":
             kwargs["clean"] = case["clean"]
             ok, res = judge.window("reopen", lambda: filer.reopen(**kwargs), filer=filer,
@@ -523,7 +571,7 @@ def _run(case, ctx, box, first):
                     ctx.violation(judge.key("clear-left-own-path-behind"),
                                   f"after close(clear=True) {judge.short(filer.path)} still exists (flags={judge.flags()} "
                                   f"name={case['name']!r} base={case['base']!r})")
-                if case["temp"]:
+                if filer.temp:
                     left = [t for t in judge.tempdirs if os.path.lexists(t)]
                     ctx.count("temp_dir_left_after_clear" if left else "temp_dir_gone_after_clear")
         steps.append([op[0], kwargs, "ok" if ok else type(res).__name__])
@@ -542,8 +590,8 @@ def _run(case, ctx, box, first):
         inside = judge.where(filer.path)
         ctx.count("final_path_" + {"in": "inside_head", "is": "is_head", "out": "outside_head"}[inside])
         if inside == "in" and not case["temp"]:
-            tl = os.path.join(box.alt if judge.alt_used else box.head, ".hio" if judge.alt_used else "hio")
-            if rel_to(filer.path, tl) == "out":
+            tails = [os.path.join(box.head, "hio"), os.path.join(box.alt, ".hio"), os.path.join(box.head2, "hio")]
+            if all(rel_to(filer.path, tl) == "out" for tl in tails):
                 ctx.count("final_path_inside_head_but_outside_tail")    # '../..' with a short base: statement allows
     if judge.created_any and judge.removed_any:
         ctx.nontrivial(case)
